@@ -49,6 +49,31 @@ CLAIMED["C06"] = (
     "and it caches Ok values only. Not decided: termination / values for all graphs.",
     "Trusted: rustc nightly MIR; scc::HashMap insert visibility; the frozen anchors in engine/qbv/rules/C06.py.")
 
+CLAIMED["C07"] = (
+    "must-pass-through / def-use rules on the publication bodies, field-coverage table for Drop for Database, shutdown join order, epoch reload link, per-value session rule",
+    "Decides: each publication writes one batch and submits it exactly once on every normal path; ordered shutdown with the committer's final drain; every "
+    "ManuallyDrop field of Database (incl. the write manager) is drained and waited for; the epoch is reloaded from and stored to the timestamp column; every top-level "
+    "encoding uses a fresh interning session. Not decided: faithfulness of the stored image across restarts for all histories.",
+    "Trusted: rustc nightly MIR; spawn_blocking runs its closure; frozen anchors in engine/qbv/rules/C07.py and C10.py.")
+CLAIMED["C09"] = (
+    "sibling agreement + def-use links on the six cached-map write sites, control-dependence rules on the pin protocol, commit-before-notify dominance",
+    "Decides: the batch's `newly recorded` bool is the cache's `updated` flag at all 6 write sites; pin count raised exactly under `updated`; negative entry on "
+    "remove-vacant; physical removal only at pin 0; miss-fill only in the Vacant arm; commit precedes un-pin notifications; un-pinned keys are exactly the "
+    "drained keys; staged set operations carry the batch epoch. Not decided: read-your-writes under all races.",
+    "Trusted: rustc nightly MIR; TinyLFU::entry runs under the bucket lock; C16.a for eviction.")
+CLAIMED["C10"] = (
+    "control-dependence on `epoch == expected`, who-may-assign rules on WriteBatch::{active,epoch}, def-use through the pipeline tasks, join-order dominance, signature/impl-table checks",
+    "Decides: apply only the expected epoch and advance on the same path; reversed heap order; inactive only after commit; one epoch source; the submitted batch "
+    "flows unchanged through serialize->commit; ordered shutdown with final drain+flush; submit moves the batch and WriteBatch is not Clone. Not decided: equality "
+    "with the sequential model for all arrival orders.",
+    "Trusted: rustc nightly MIR; crossbeam channel and BinaryHeap semantics.")
+CLAIMED["C16"] = (
+    "who-may-call rule on the storage map, control-dependence of eviction on the pin predicate and of policy forgetting on the storage's confirmation, message pairing, predicate/field links",
+    "Decides: only remove_closure and OccupiedEntry::remove take entries out of the storage; policy eviction requires is_pinned == false on the same locked entry; "
+    "the policy forgets a key only after confirmation (else moves it to Pinned); insert/remove/unpin always announce their message and all messages are handled; "
+    "pin predicates read the owner-mutated fields with the right threshold; un-pin only when the counter drops from 1. Not decided: the numeric bound.",
+    "Trusted: rustc nightly MIR; scc entry_sync bucket lock.")
+
 NOT_YET = "check under construction in this round (DESIGN.md section 5 lists its clauses); not claimed until its rules are armed and self-tested"
 
 checks = []
